@@ -140,6 +140,12 @@ def elem_of(iter_term: Term, j: int) -> Term:
             return ("tuple", tuple(elem_of(a, j) for a in args))
         if name in ("iter", "list", "tuple") and len(args) == 1:
             return elem_of(args[0], j)
+        if name in ("itertools.count", "count") and len(args) <= 2:
+            # count(a, s): a, a + s, a + 2s, ...
+            start = args[0] if args else C(0)
+            step = args[1] if len(args) == 2 else C(1)
+            if step[0] == "c" and isinstance(step[1], int):
+                return T.p_add(start, C(j * step[1]))
     if iter_term[0] == "call" and iter_term[1] == "enumerate" and len(iter_term[2]) == 1 and len(iter_term[3]) == 1 \
             and iter_term[3][0][0] == "start":
         return ("tuple", (T.p_add(C(j), iter_term[3][0][1]), elem_of(iter_term[2][0], j)))
@@ -731,6 +737,14 @@ class Explorer:
     def x_For(self, s, st):
         it = self.normalizer(st).norm(s.iter)
         st.add(Event("foriter", s, it))
+        it = T.dict_lookup(it)
+        if it[0] == "call" and it[1] == "enumerate" and it[2]:
+            it = (it[0], it[1], (T.dict_lookup(it[2][0]),) + tuple(it[2][1:])) + tuple(it[3:])
+        if it[0] == "call" and it[1] == "enumerate" and 1 <= len(it[2]) <= 2 and it[2][0][0] in ("tuple", "list") and not s.orelse:
+            # enumerate over a display: the display of (number, element) pairs
+            start = it[2][1] if len(it[2]) == 2 else dict(it[3]).get("start", C(0))
+            if start[0] == "c" and isinstance(start[1], int) and not any(x[0] == "star" for x in it[2][0][1]):
+                it = ("list", tuple(("tuple", (C(start[1] + k), x)) for k, x in enumerate(it[2][0][1])))
         if it[0] in ("tuple", "list") and 0 < len(it[1]) <= 4 and not any(x[0] == "star" for x in it[1]) and not s.orelse:
             return self._loop_literal(s, st, it)
         return self._loop(s, st, it, None)
